@@ -32,12 +32,21 @@ def _server_run(params, residue):
             return None
         if rng.random() < 0.5:
             A.option(b"l")
+        canaries, echoes = [], []
         for i in range(params["n"]):
             # "another client" first leaves a long datagram in the buffer ...
             long_frame = proto.make_frame(Bc.tun_ip, "10.9.0.1", 5000 + i, rng.choice([100, 150]), "random", rng)
             Bc.up_seq = (Bc.up_seq + 1) & 7
             Bc.query(Bc.data_labels(Bc.up_seq, 0, 1, proto.deflate(long_frame)[:110]))
             k.run(k.now + 3000)
+            if rng.random() < 0.5:
+                # ... or a third party's stateless case-check query whose name is a unique canary: no later answer to a
+                # datagram that does not itself contain the canary may carry it
+                can = bytes(rng.choice(b"abcdefghijklmnopqrstuvwxyz234567") for _ in range(rng.choice([24, 40])))
+                canaries.append(can)
+                k.transmit(("10.66.0.8", 5555), (scen.SERVER_IP, 53),
+                           proto.build_query(rng.getrandbits(16) or 1, [b"z" + can] + list(dl), rng.choice(list(proto.QTYPES.values()))))
+                k.run(k.now + 3000)
             # ... then a short / truncated / pointer-ending datagram arrives
             kind = rng.randrange(7)
             if kind == 6:
@@ -57,11 +66,14 @@ def _server_run(params, residue):
             elif kind == 2:
                 # name = few labels, then a pointer to (or just beyond) the end of the datagram
                 lab = b"\x05" + bytes(rng.choice(b"abcdefpz0123") for _ in range(5))
-                body = lab
+                body = lab if rng.random() < 0.6 else b""         # (or the pointer is the very first thing of the name)
                 tgt = 12 + len(body) + 2 + rng.choice([-1, 0, 0, 1, 2, 4, 5])
                 d = struct.pack(">HHHHHH", rng.getrandbits(16) or 1, 0x0100, 1, 0, 0, 0) + body + struct.pack(">H", 0xC000 | (tgt & 0x3FFF))
                 if rng.random() < 0.5:
                     d += struct.pack(">HH", A.qtype, 1)[:rng.randint(0, 4)]
+                elif rng.random() < 0.5:
+                    # the pointer bytes themselves read as a tunnelled query type (0xFF77 = PRIVATE), class IN follows
+                    d = d[:-2] + b"\xff\x77\x00\x01"
             elif kind == 3:
                 d = proto.RAW_MAGIC[:rng.randint(0, 3)] + bytes(rng.getrandbits(8) for _ in range(rng.randint(0, 3)))
             elif kind == 4:
@@ -74,9 +86,22 @@ def _server_run(params, residue):
             k.run(k.now + 3000)
         k.run(k.now + 200000)
         trace = []
+        rcvd = {}
         for ev in k.log:
+            if ev[2] == "srv" and ev[1] == "recv":
+                rcvd[ev[3]["id"]] = bytes(ev[3]["data"]).lower()
+            if ev[2] == "srv" and ev[1] == "send" and canaries:
+                cause = rcvd.get(ev[3].get("cause"))
+                low = bytes(ev[3]["data"]).lower()
+                if cause is not None:
+                    for can in canaries:
+                        if can in low and can not in cause:
+                            echoes.append({"canary": can.decode(), "caused_by": cause.hex()[:200], "reply_to": repr(ev[3].get("dst")),
+                                           "reply": low.hex()[:300], "time_us": ev[0]})
+                            break
             if ev[2] == "srv" and ev[1] in ("send", "tun_write"):
                 trace.append((ev[1], ev[3].get("dst"), bytes(ev[3]["data"])))
+        trace.append(("canaries", len(canaries), echoes[:2]))
         trace.append(("alive", srv.alive(), sim.health(srv)))
         trace.append(("table", repr([sorted(r.items()) for r in srv.snapshot])))
         return trace
@@ -143,6 +168,15 @@ def scn(params):
         if any(x[0] in ("health",) and x[1] == "sanitizer" for x in tr if len(x) > 1):
             out["inconclusive"] = "sanitizer-abort"          # C05/C06 judge those
             return out
+        for x in tr:
+            if x[0] == "canaries":
+                out["stats"]["canary_queries"] = out["stats"].get("canary_queries", 0) + x[1]
+                if x[2] and not out["violations"]:
+                    out["violations"].append(("C12:earlier-traffic-echoed:server",
+                                              "a reply caused by a datagram that does not contain it carries the unique name of an earlier query from another sender",
+                                              dict(x[2][0], seed=params["seed"], params=params, residue=residue[0])))
+        if out["violations"]:
+            break
         if base is None:
             base = (residue[0], tr)
             continue
@@ -181,7 +215,8 @@ def run(ctx):
                 "answer, a truncated / RDLENGTH-lying / pointer-tricked one, then the real one) are each run under 6 residue "
                 "policies of the simulated recv (keep = true stale bytes, zeros, 0xFF, C0 0C, a plausible continuation, ascending "
                 "bytes); every datagram sent, every tun write, every system() command and the final users[] table must be "
-                "identical. evaluations = decode calls + whole-program runs; non-trivial = distinct (datagram kind, decode "
+                "identical; in the server runs half of the lingering datagrams are a third party's stateless case-check query with a unique "
+                "canary name, and no datagram sent because of a datagram without the canary may contain it. evaluations = decode calls + whole-program runs; non-trivial = distinct (datagram kind, decode "
                 "outcome) classes + system traces compared.")
     res.assumptions = ["a read past the end that cannot influence any output is not a violation (property as stated)",
                        "sanitizers cannot see this class: the 64 KB buffer is fully addressable"]
